@@ -16,7 +16,10 @@ CLAIMED = {
     text='1..4 line, pickle (protocols 0-5) and UDP clients; every TCP stream is cut at seeded positions (1-byte runs, '
          'inside UTF-8 characters, inside the 4-byte length prefix, coalesced frames), connections interleave, '
          'receivers are paused and resumed mid-stream, datagrams are dropped / duplicated / reordered. After every '
-         'delivered chunk the pipeline recorder must hold exactly the datapoints whose frames that chunk completed.',
+         'delivered chunk the pipeline recorder must hold exactly the datapoints whose frames that chunk completed. '
+         'Clients connect lazily, also Python-2-style pickle frames, pauses raised inside a chunk, cache-full signals '
+         'without flow control, MAX_RECEIVER_CONNECTIONS with a backlog, idle timeouts; no connection may stay '
+         'unread or unaccepted at the end.',
     ref='6 (C01)'),
   'C11': dict(
     technique=TECH + 'malformed frames built by construction interleaved with well-formed ones under the C01 '
@@ -30,7 +33,9 @@ CLAIMED = {
     'the virtual clock; oracle = reference admission function over the list contents as of the last reload performed',
     text='USE_WHITELIST on, generated whitelist/blacklist files (regex sets, empty, comments, uncompilable lines, '
          'missing), MIN_TIMESTAMP_RESOLUTION 0/1/10/60, -1 timestamps, NaN/inf values, same datapoints over line, UDP '
-         'and pickle in interleaved segments; recorder and blacklistMatches/whitelistRejects counters must agree.',
+         'and pickle in interleaved segments; recorder and blacklistMatches/whitelistRejects counters must agree. The '
+         'reference follows the documented 10 s reload schedule on its own timer; a file-system fault seam makes a list '
+         'file vanish between exists() and getmtime().',
     ref='6 (C12)'),
   'C02': dict(
     technique=TECH + 'refinement of the real MetricCache against a dict-of-dict reference model stepped in '
@@ -45,14 +50,20 @@ CLAIMED = {
     'drained batch to exactly one write / counted drop / counted or logged error',
     text='Seeded exploration of workloads x thread schedules x backend fault placements (exists/create/write raise '
          'IOError/ENOSPC/RuntimeError or stall) x rate limits x strategies; the recorded history of drains, backend '
-         'calls, counters and logged errors is checked batch by batch.',
+         'calls, counters and logged errors is checked batch by batch; every write is checked against the files '
+         'existing at that call; with the daemon\'s own reporting on, reported + pending counters must equal the '
+         'backend history. A share of the seeded runs is additionally re-executed once per single-fault placement '
+         '(and a sample of pairs) of its fault-free version.',
     ref='6 (C03)'),
   'C04': dict(
     technique=TECH + 'reactor.stop() (real three-phase trigger sequence) injected at seeded points of the plan and of '
     'the writer loop; oracle: nothing accepted before the stop is left in the cache when the writer thread exits',
     text='Seeded placement of an orderly stop between any two receiver operations and, by schedule, between any two '
          'lines of the writer loop (idle sleep, rate-limit wait, mid-pass), x strategies x MIN_TIMESTAMP_LAG x limits '
-         'x MAX_UPDATES_PER_SECOND_ON_SHUTDOWN; bounded liveness: the writer exits within 1 h virtual.',
+         'x MAX_UPDATES_PER_SECOND_ON_SHUTDOWN, with cache queries and clock jumps in the workload; bounded liveness: '
+         'the writer exits within 1 h virtual. A share of the seeded runs is additionally re-executed with the stop '
+         'injected at every line the writer thread executes after the last receiver operation (crash-point '
+         'enumeration relative to the base run\'s recorded schedule).',
     ref='6 (C04)'),
   'C05': dict(
     technique=TECH + 'routing invariants evaluated on the booted relay after every fault-driven membership change '
@@ -80,7 +91,8 @@ CLAIMED = {
     text='Per destination: written (self-metrics removed) is always a prefix of accepted; each self-metric written at '
          'most once; queue within the hard limit; every discard counted and only at the limit; removal re-routes '
          'queued datapoints (conservation per event); stop closes only after the queue is flushed; bounded liveness '
-         'after faults stop. One known finding (fractional hard limit).',
+         'after faults stop; after every event accepted-but-unwritten == queue contents; connection-quality resets, '
+         'deep backlogs, reported drop counters. One known finding (fractional hard limit).',
     ref='6 (C07)'),
   'C08': dict(
     technique=TECH + 'aggregation pipeline of a booted carbon-aggregator on the virtual clock: arrivals (late, '
@@ -90,7 +102,8 @@ CLAIMED = {
          'WRITE_BACK_FREQUENCY, name cache off/LRU/TTL, FORWARD_ALL on/off. Every emission must equal the rule '
          'function over a suffix of the values received for its interval that includes everything since the last '
          'emission (all of them inside the retention horizon); re-emission only on new data; <= MAX+2 buffers after a '
-         'flush; idle series and their timers released; pass-through exactly once; whole-name matching.',
+         'flush, all received values covered by an emission after the flush that follows them; idle series and their '
+         'timers released; pass-through exactly once; whole-name matching; rule-file edits under the running daemon.',
     ref='6 (C08)'),
   'C09': dict(
     technique=TECH + 'bounded-liveness oracle at quiescence over seeded interleavings of the storing thread, the '
@@ -105,7 +118,8 @@ CLAIMED = {
     'reference admission rule, under seeded interleavings',
     text='MAX_CACHE_SIZE 1..6, 20, 40, flow control on/off, all strategies: cache.size <= hard limit at every '
          'scheduling point; a refused store fires the overflow signal exactly once and changes neither contents nor '
-         'key set; a duplicate timestamp is accepted when full. One known finding (fractional hard limit).',
+         'key set; a duplicate timestamp is accepted when full; with instrumentation on, reported + pending '
+         'cache.overflow equals the refusals signalled. One known finding (fractional hard limit).',
     ref='6 (C10), 9.8'),
   'C15': dict(
     technique=TECH + 'two-party simulation: the relay\'s real client protocol writes to a simulated connection whose '
@@ -120,7 +134,8 @@ CLAIMED = {
     'each fault-driven membership change',
     text='rules router: first match, continue chain, default last, intersected with the currently configured set; '
          'aggregation-aware routers: every input of an aggregate is routed to the hash destinations of the aggregate '
-         'name, unmatched names by their own name.',
+         'name, unmatched names by their own name; aggregation-rules.conf is edited under the running relay and the '
+         'reference follows the documented 10 s reload schedule.',
     ref='6 (C16)'),
   'C17': dict(
     technique=TECH + 'seeded search over line-level interleavings of the storing and draining threads on the real '
@@ -133,7 +148,9 @@ CLAIMED = {
     'under the 60 s reload timer; oracle = reference evaluator of the documented schema language',
     text='Generated storage-schemas.conf / storage-aggregation.conf (1..6 sections, overlapping patterns, missing '
          'keys, all unit suffixes) loaded by the real code; every simdb.create() argument tuple must equal the '
-         'reference evaluation of a file version in force between the writer\'s previous backend call and the create.',
+         'reference evaluation of a file version in force between the writer\'s previous backend call and the create '
+         '(reference versions follow the documented 60 s schedule on the harness\'s own timer; unparseable files '
+         'are part of the workload).',
     ref='6 (C19)'),
   'C20': dict(
     technique=TECH + 'TokenBucket on the virtual clock driven by seeded acquisition / clock-step / limit-change '
@@ -141,7 +158,9 @@ CLAIMED = {
     'real buckets observed through backend call times',
     text='World E: capacities 1..1000, rates 1/60..1000, zero / tiny / huge clock steps, injected oversleep, limit '
          'changes (also from a second simulated thread); every pair of grants is checked against rate*w + 2*burst '
-         '(+ new burst per limit change). World B: write/create call times of the booted writer incl. shutdown.',
+         '(+ new burst per limit change; while a change is in progress on the other thread the larger limits count). '
+         'World B: write/create call times of the booted writer, failing creates included, a tighter bound behind '
+         'the shutdown change, stop enumeration over the writer\'s lines.',
     ref='6 (C20)'),
 }
 
